@@ -3,6 +3,12 @@
    the reference text returns exactly the embedded value, the encoder gives the text back
    byte for byte, the accessors report what the value denotes, and the judge observation is the
    expected one.  Structural reasoning on index_byte / split_byte over concatenations.
+   Main theorems (each kind X in sip_uri / addr_spec / name_addr):
+     parse_X_rp, X_print_embed, obs_X_embed, X_roundtrip, C14_sipuri / C14_addrspec / C14_nameaddr,
+     dialog_addr_embed, sip_uri_print_with_embed, sip_uri_get_port_embed, sip_uri_transport_embed;
+   witnesses: C14_sipuri_legacy_refuted (pre-fix decoder), C14_ipv6_refuted (K1),
+     C14_user_semicolon_refuted (K2); examples ex_uri_*, ex_addr_*, ex_na_*.
+   proofs/C14_hdr.v continues with Route / Record-Route / From / To.
    No axioms, no admits. *)
 From Coq Require Import List Ascii String ZArith NArith Bool Lia.
 From Model Require Import Bytes BytesLemmas Wire Uri Hdr Message Codec SpecC14.
@@ -401,3 +407,763 @@ Proof.
   cbn [flat_map app forallb]. rewrite forallb_app. rewrite (val_uri _ (rp_hdr_val h' Hh')).
   rewrite (IH Hr). reflexivity.
 Qed.
+
+(* ================================================================== more generic facts *)
+Lemma firstn_S_len_app {A} (a : list A) c b : firstn (S (List.length a)) (a ++ c :: b) = a ++ [c].
+Proof. induction a as [|x a IH]; [reflexivity|]. cbn [List.length app]. rewrite firstn_cons, IH. reflexivity. Qed.
+
+Lemma forallb_app_true {A} (f : A -> bool) a b :
+  forallb f a = true -> forallb f b = true -> forallb f (a ++ b) = true.
+Proof. intros Ha Hb. rewrite forallb_app, Ha, Hb. reflexivity. Qed.
+
+Ltac ascii_cases :=
+  let c := fresh "c" in
+  intros c; destruct c as [[|] [|] [|] [|] [|] [|] [|] [|]]; vm_compute;
+  try reflexivity; intros; try discriminate; try reflexivity.
+
+Lemma pm_char_nospace : forall c, pm_char c = true -> is_space c = false.
+Proof. ascii_cases. Qed.
+Lemma other_char_nospace : forall c, other_char c = true -> is_space c = false.
+Proof. ascii_cases. Qed.
+
+Lemma hp_notin c s : hp_char c = false -> forallb hp_char s = true -> ~ In c s.
+Proof. apply forallb_notin. Qed.
+Lemma pm_notin c s : pm_char c = false -> forallb pm_char s = true -> ~ In c s.
+Proof. apply forallb_notin. Qed.
+Lemma uri_notin c s : uri_char c = false -> forallb uri_char s = true -> ~ In c s.
+Proof. apply forallb_notin. Qed.
+
+(* strings.TrimSpace leaves a text without white space untouched *)
+Definition nospace (s : bytes) : Prop := forall c, In c s -> is_space c = false.
+
+Lemma trim_left_nospace s : nospace s -> trim_left s = s.
+Proof.
+  destruct s as [|c r]; intros H; [reflexivity|].
+  cbn [trim_left]. rewrite (H c (or_introl eq_refl)). reflexivity.
+Qed.
+
+Lemma trim_space_nospace s : nospace s -> trim_space s = s.
+Proof.
+  intros H. unfold trim_space, trim_right. rewrite (trim_left_nospace s H).
+  rewrite trim_left_nospace; [apply rev_involutive|].
+  intros c Hc. apply H. apply in_rev. exact Hc.
+Qed.
+
+Lemma forallb_nospace (f : ascii -> bool) s :
+  (forall c, f c = true -> is_space c = false) -> forallb f s = true -> nospace s.
+Proof. intros Hf H c Hc. apply Hf. rewrite forallb_forall in H. apply H, Hc. Qed.
+
+Lemma rp_params_nospace l : forallb wf_param l = true -> nospace (rp_params l).
+Proof. intros H. apply (forallb_nospace pm_char); [apply pm_char_nospace|apply rp_params_pm, H]. Qed.
+
+Lemma rp_params_cons p l : rp_params (p :: l) = ";"%char :: rp_param p ++ rp_params l.
+Proof. reflexivity. Qed.
+
+(* accessors over embedded parameters = the abstract lookup (no hypothesis) *)
+Lemma kv_get_embed name ps : kv_get name (map embed_param ps) = a_get name ps.
+Proof.
+  unfold a_get. induction ps as [|p ps IH]; [reflexivity|].
+  cbn [map kv_get find]. unfold embed_param at 1. cbn [k_key k_val].
+  destruct (beq (ap_key p) name); [reflexivity|exact IH].
+Qed.
+
+Lemma e_kvs_embed ps : e_kvs (map embed_param ps) = x_params ps.
+Proof.
+  unfold e_kvs, x_params, e_list. rewrite map_length. f_equal.
+  induction ps as [|p ps IH]; [reflexivity|].
+  cbn [map flat_map]. rewrite IH. reflexivity.
+Qed.
+
+Lemma e_kvs_embed_hdr hs : e_kvs (map embed_hdr hs) = e_list (fun '(k, v) => [k; v]) hs.
+Proof.
+  unfold e_kvs, e_list. rewrite map_length. f_equal.
+  induction hs as [|[k v] hs IH]; [reflexivity|].
+  cbn [map flat_map]. rewrite IH. reflexivity.
+Qed.
+
+(* ================================================================== SIP URI: the text *)
+(* user-info, host and port: the part in front of the parameters *)
+Definition rp_core (u : a_sipuri) : bytes := rp_user (au_user u) ++ au_host u ++ rp_port (au_port u).
+
+Lemma rp_sipuri_eq2 u :
+  rp_sipuri u = rp_scheme (au_secure u) ++
+                ((rp_core u ++ rp_params (au_params u)) ++ rp_hdrs (au_headers u)).
+Proof. rewrite rp_sipuri_eq. unfold rp_core. rewrite <- !app_assoc. reflexivity. Qed.
+
+Lemma rp_user_hp o : wf_user o = true -> forallb hp_char (rp_user o) = true.
+Proof.
+  destruct o as [[usr [pw|]]|]; cbn [wf_user rp_user]; intros H; [| |reflexivity].
+  - apply andb_true_iff in H. destruct H as [H1 H2].
+    apply safe1_parts in H1, H2. destruct H1 as [_ H1], H2 as [_ H2].
+    apply forallb_app_true; [apply safe_hp, H1|]. cbn [forallb].
+    rewrite forallb_app, (safe_hp _ H2). reflexivity.
+  - rewrite andb_true_r in H. apply safe1_parts in H. destruct H as [_ H].
+    apply forallb_app_true; [apply safe_hp, H|reflexivity].
+Qed.
+
+Lemma rp_port_hp p : forallb hp_char (rp_port p) = true.
+Proof.
+  destruct p as [z|]; [|reflexivity]. cbn [rp_port forallb].
+  rewrite (safe_hp _ (itoa_safe z)). reflexivity.
+Qed.
+
+Lemma rp_port_notin c p : c <> ":"%char -> safe_char c = false -> ~ In c (rp_port p).
+Proof.
+  intros Hc Hs. destruct p as [z|]; [|intros []]. cbn [rp_port].
+  apply notin_cons; [congruence|]. apply (safe_notin c _ Hs (itoa_safe z)).
+Qed.
+
+Lemma rp_core_hp u : wf_sipuri u = true -> forallb hp_char (rp_core u) = true.
+Proof.
+  intros H. destruct (wf_sipuri_parts u H) as (Hu & Hh & _ & _ & _).
+  apply safe1_parts in Hh. destruct Hh as [_ Hh]. unfold rp_core.
+  apply forallb_app_true; [apply rp_user_hp, Hu|].
+  apply forallb_app_true; [apply safe_hp, Hh|apply rp_port_hp].
+Qed.
+
+Lemma rp_core_params_pm u : wf_sipuri u = true ->
+  forallb pm_char (rp_core u ++ rp_params (au_params u)) = true.
+Proof.
+  intros H. destruct (wf_sipuri_parts u H) as (_ & _ & _ & Hps & _).
+  apply forallb_app_true; [apply hp_pm, rp_core_hp, H|apply rp_params_pm, Hps].
+Qed.
+
+Lemma rp_scheme_uri b : forallb uri_char (rp_scheme b) = true.
+Proof. destruct b; reflexivity. Qed.
+
+(* every character of a printed SIP URI is a URI character *)
+Lemma rp_sipuri_uri u : wf_sipuri u = true -> forallb uri_char (rp_sipuri u) = true.
+Proof.
+  intros H. destruct (wf_sipuri_parts u H) as (_ & _ & _ & _ & Hhs).
+  rewrite rp_sipuri_eq2.
+  apply forallb_app_true; [apply rp_scheme_uri|].
+  apply forallb_app_true; [apply pm_uri, rp_core_params_pm, H|apply rp_hdrs_uri, Hhs].
+Qed.
+
+(* ================================================================== SIP URI: decode *)
+(* the four cuts of parseSIPURI, in the order of the Go code *)
+Definition cut_hdrs (s : bytes) : bytes * list kv :=
+  match index_byte "?"%char s with
+  | Some pos => (firstn pos s, parse_uri_headers (skipn (S pos) s))
+  | None => (s, []) end.
+Definition cut_params (pp : bytes -> list kv) (s1 : bytes) : bytes * list kv :=
+  match index_byte ";"%char s1 with
+  | Some pos => (firstn pos s1, pp (skipn (S pos) s1))
+  | None => (s1, []) end.
+Definition cut_user (s2 : bytes) : bytes * bytes * bytes :=
+  match index_byte "@"%char s2 with
+  | Some pos => let '(u, p) := parse_user_info (firstn pos s2) in (u, p, skipn (S pos) s2)
+  | None => ([], [], s2) end.
+Definition uri_go (pp : bytes -> list kv) (scheme s : bytes) : res sip_uri :=
+  let '(s1, hdrs) := cut_hdrs s in
+  let '(s2, params) := cut_params pp s1 in
+  let '(user, pw, hp) := cut_user s2 in
+  let '(h, port) := parse_host_port hp in
+  Ok {| u_scheme := scheme; u_user := user; u_password := pw; u_host := h; u_port := port;
+        u_params := params; u_headers := hdrs |}.
+
+Lemma parse_sip_uri_with_sip pp s :
+  parse_sip_uri_with pp (s2b "sip:" ++ s) = uri_go pp (s2b "sip") s.
+Proof. reflexivity. Qed.
+Lemma parse_sip_uri_with_sips pp s :
+  parse_sip_uri_with pp (s2b "sips:" ++ s) = uri_go pp (s2b "sips") s.
+Proof. reflexivity. Qed.
+
+Lemma parse_sip_uri_with_scheme pp b s :
+  parse_sip_uri_with pp (rp_scheme b ++ s) = uri_go pp (emb_scheme b) s.
+Proof. destruct b; reflexivity. Qed.
+
+Lemma cut_hdrs_ok s1 hs : ~ In "?"%char s1 -> forallb wf_hdr hs = true ->
+  cut_hdrs (s1 ++ rp_hdrs hs) = (s1, map embed_hdr hs).
+Proof.
+  intros Hs H. unfold cut_hdrs. destruct hs as [|h r].
+  - cbn [rp_hdrs map]. rewrite app_nil_r, index_notin by exact Hs. reflexivity.
+  - cbn [rp_hdrs].
+    destruct (index_cut _ s1 (rp_hdr h ++ flat_map (fun y => "&"%char :: rp_hdr y) r) Hs)
+      as (E1 & E2 & E3).
+    rewrite E1, E2, E3, parse_uri_headers_ok by exact H. reflexivity.
+Qed.
+
+Lemma cut_params_ok core ps : ~ In ";"%char core -> forallb wf_param ps = true ->
+  cut_params parse_uri_parameters (core ++ rp_params ps) = (core, map embed_param ps).
+Proof.
+  intros Hs H. unfold cut_params. destruct ps as [|p r].
+  - cbn [rp_params flat_map map]. rewrite app_nil_r, index_notin by exact Hs. reflexivity.
+  - rewrite rp_params_cons.
+    destruct (index_cut _ core (rp_param p ++ rp_params r) Hs) as (E1 & E2 & E3).
+    rewrite E1, E2, E3, parse_uri_parameters_ok by exact H. reflexivity.
+Qed.
+
+Lemma cut_user_ok o hp : wf_user o = true -> ~ In "@"%char hp ->
+  cut_user (rp_user o ++ hp) = (emb_user o, emb_pw o, hp).
+Proof.
+  intros H Hhp. unfold cut_user.
+  destruct o as [[usr [pw|]]|]; cbn [wf_user rp_user emb_user emb_pw] in *.
+  - apply andb_true_iff in H. destruct H as [H1 H2].
+    apply safe1_parts in H1, H2. destruct H1 as [_ H1], H2 as [_ H2].
+    assert (N : ~ In "@"%char (usr ++ ":"%char :: pw)).
+    { apply notin_app; [apply safe_no_at, H1|].
+      apply notin_cons; [discriminate|apply safe_no_at, H2]. }
+    replace ((usr ++ ":"%char :: pw ++ ["@"%char]) ++ hp)
+      with ((usr ++ ":"%char :: pw) ++ "@"%char :: hp) by (norm_app; reflexivity).
+    destruct (index_cut _ _ hp N) as (E1 & E2 & E3). rewrite E1, E2, E3.
+    unfold parse_user_info.
+    destruct (index_cut _ usr pw (safe_no_colon _ H1)) as (F1 & F2 & F3).
+    rewrite F1, F2, F3. reflexivity.
+  - rewrite andb_true_r in H. apply safe1_parts in H. destruct H as [_ H].
+    replace ((usr ++ ["@"%char]) ++ hp) with (usr ++ "@"%char :: hp) by (norm_app; reflexivity).
+    destruct (index_cut _ usr hp (safe_no_at _ H)) as (E1 & E2 & E3). rewrite E1, E2, E3.
+    unfold parse_user_info. rewrite index_notin by (apply safe_no_colon, H). reflexivity.
+  - cbn [app]. rewrite index_notin by exact Hhp. reflexivity.
+Qed.
+
+Lemma parse_host_port_ok h p : safe h = true -> wf_port p = true ->
+  parse_host_port (h ++ rp_port p) = (h, emb_port p).
+Proof.
+  intros Hh Hp. unfold parse_host_port. destruct p as [z|]; cbn [rp_port emb_port].
+  - destruct (index_cut _ h (itoa z) (safe_no_colon _ Hh)) as (E1 & E2 & E3).
+    rewrite E1, E2, E3, (atoi_val_port z Hp). reflexivity.
+  - rewrite app_nil_r, index_notin by (apply safe_no_colon, Hh). reflexivity.
+Qed.
+
+(* decode: the reference text of a well-formed SIP URI is decoded to exactly its embedding *)
+Theorem parse_sip_uri_rp u : wf_sipuri u = true -> parse_sip_uri (rp_sipuri u) = Ok (embed_sipuri u).
+Proof.
+  intros H. destruct (wf_sipuri_parts u H) as (Hu & Hh & Hp & Hps & Hhs).
+  apply safe1_parts in Hh. destruct Hh as [_ Hh].
+  unfold parse_sip_uri. rewrite rp_sipuri_eq2, parse_sip_uri_with_scheme. unfold uri_go.
+  rewrite cut_hdrs_ok;
+    [|apply (pm_notin "?"%char _ eq_refl), rp_core_params_pm, H|exact Hhs].
+  cbv beta iota.
+  rewrite cut_params_ok;
+    [|apply (hp_notin ";"%char _ eq_refl), rp_core_hp, H|exact Hps].
+  cbv beta iota. unfold rp_core.
+  rewrite cut_user_ok;
+    [|exact Hu|apply notin_app; [apply safe_no_at, Hh|apply rp_port_notin; [discriminate|reflexivity]]].
+  cbv beta iota.
+  rewrite parse_host_port_ok by assumption.
+  reflexivity.
+Qed.
+
+(* ================================================================== SIP URI: encode *)
+Definition print_user (usr pw : bytes) : bytes :=
+  match usr with
+  | [] => []
+  | a :: l => match pw with
+              | [] => (a :: l) ++ [ "@"%char ]
+              | b :: m => (a :: l) ++ ":"%char :: (b :: m) ++ [ "@"%char ]
+              end
+  end.
+Definition print_hostport (h : bytes) (p : Z) : bytes :=
+  if Z.eqb p 0 then h else h ++ ":"%char :: itoa p.
+Definition print_hdrs (l : list kv) : bytes :=
+  match l with
+  | [] => []
+  | h :: r => "?"%char :: k_key h ++ "="%char :: k_val h ++
+              flat_map (fun p => "&"%char :: k_key p ++ "="%char :: k_val p) r
+  end.
+
+Lemma sip_uri_print_with_eq wp wh u :
+  sip_uri_print_with wp wh u =
+  u_scheme u ++ ":"%char :: print_user (u_user u) (u_password u) ++
+  print_hostport (u_host u) (u_port u) ++
+  (if wp then print_params ";"%char (u_params u) else []) ++
+  (if wh then print_hdrs (u_headers u) else []).
+Proof. reflexivity. Qed.
+
+Lemma print_user_ok o : wf_user o = true -> print_user (emb_user o) (emb_pw o) = rp_user o.
+Proof.
+  destruct o as [[usr [pw|]]|]; cbn [wf_user rp_user emb_user emb_pw]; intros H; [| |reflexivity].
+  - apply andb_true_iff in H. destruct H as [H1 H2].
+    apply safe1_parts in H1, H2. destruct H1 as [N1 _], H2 as [N2 _].
+    destruct usr; [contradiction|]. destruct pw; [contradiction|]. reflexivity.
+  - rewrite andb_true_r in H. apply safe1_parts in H. destruct H as [N1 _].
+    destruct usr; [contradiction|]. reflexivity.
+Qed.
+
+Lemma print_hostport_ok h p : wf_port p = true -> print_hostport h (emb_port p) = h ++ rp_port p.
+Proof.
+  intros H. unfold print_hostport. destruct p as [z|]; cbn [emb_port rp_port].
+  - apply wf_port_range in H. replace (Z.eqb z 0) with false; [reflexivity|].
+    symmetry. apply Z.eqb_neq. lia.
+  - rewrite app_nil_r. reflexivity.
+Qed.
+
+Lemma print_hdrs_ok hs : print_hdrs (map embed_hdr hs) = rp_hdrs hs.
+Proof.
+  destruct hs as [|h r]; [reflexivity|]. cbn [map print_hdrs rp_hdrs].
+  unfold rp_hdr at 1. cbn [embed_hdr k_key k_val]. norm_app. do 4 f_equal.
+  rewrite flat_map_concat_map, map_map, <- flat_map_concat_map. reflexivity.
+Qed.
+
+Lemma emb_scheme_colon b s : emb_scheme b ++ ":"%char :: s = rp_scheme b ++ s.
+Proof. destruct b; reflexivity. Qed.
+
+(* SIPURI._Write with or without parameters / headers (the latter is the dialog form) *)
+Lemma sip_uri_print_with_embed wp wh u : wf_sipuri u = true ->
+  sip_uri_print_with wp wh (embed_sipuri u) =
+  rp_scheme (au_secure u) ++ rp_core u ++
+  (if wp then rp_params (au_params u) else []) ++ (if wh then rp_hdrs (au_headers u) else []).
+Proof.
+  intros H. destruct (wf_sipuri_parts u H) as (Hu & _ & Hp & Hps & _).
+  rewrite sip_uri_print_with_eq. unfold embed_sipuri.
+  cbn [u_scheme u_user u_password u_host u_port u_params u_headers].
+  rewrite emb_scheme_colon, print_user_ok, print_hostport_ok, print_params_ok, print_hdrs_ok
+    by assumption.
+  unfold rp_core. rewrite <- !app_assoc. reflexivity.
+Qed.
+
+(* encode: byte-identical *)
+Theorem sip_uri_print_embed u : wf_sipuri u = true -> sip_uri_print (embed_sipuri u) = rp_sipuri u.
+Proof.
+  intros H. unfold sip_uri_print. rewrite sip_uri_print_with_embed by exact H.
+  rewrite rp_sipuri_eq2. rewrite <- !app_assoc. reflexivity.
+Qed.
+
+(* ================================================================== SIP URI: accessors *)
+Theorem sip_uri_transport_embed u : sip_uri_transport (embed_sipuri u) = x_transport u.
+Proof. unfold sip_uri_transport, x_transport, embed_sipuri. cbn [u_params]. rewrite kv_get_embed. reflexivity. Qed.
+
+Theorem sip_uri_get_port_embed u : wf_port (au_port u) = true ->
+  sip_uri_get_port (embed_sipuri u) =
+  match au_port u with
+  | Some z => z
+  | None => if beq (x_transport u) (s2b "tls") then 5061%Z else 5060%Z
+  end.
+Proof.
+  intros H. unfold sip_uri_get_port. rewrite sip_uri_transport_embed.
+  unfold embed_sipuri. cbn [u_port]. destruct (au_port u) as [z|]; cbn [emb_port]; [|reflexivity].
+  apply wf_port_range in H. replace (Z.eqb z 0) with false; [reflexivity|].
+  symmetry. apply Z.eqb_neq. lia.
+Qed.
+
+Theorem obs_sip_uri_embed u : wf_sipuri u = true -> obs_sip_uri (embed_sipuri u) = x_sipuri u.
+Proof.
+  intros H. destruct (wf_sipuri_parts u H) as (_ & _ & Hp & _ & _).
+  unfold obs_sip_uri, x_sipuri.
+  rewrite sip_uri_get_port_embed by exact Hp. rewrite sip_uri_transport_embed.
+  unfold embed_sipuri. cbn [u_scheme u_user u_password u_host u_port u_params u_headers].
+  rewrite e_kvs_embed, e_kvs_embed_hdr. reflexivity.
+Qed.
+
+(* ================================================================== judge form *)
+Lemma codec_obs_exact {A} (parse : bytes -> res A) (print : A -> bytes) (obs : A -> list bytes)
+      (t : bytes) (a : A) (x : list bytes) :
+  parse t = Ok a -> print a = t -> obs a = x -> codec_obs parse print obs t = expected_obs t x.
+Proof.
+  intros Hp Hq Ho. unfold codec_obs, expected_obs. rewrite Hp, Hq, Hp, Hq, Ho. reflexivity.
+Qed.
+
+Lemma list_beq_refl o : list_beq o o = true.
+Proof. induction o as [|b o IH]; [reflexivity|]. cbn [list_beq]. rewrite beq_refl, IH. reflexivity. Qed.
+
+Lemma judge_C14_of_eq e o : o = e -> judge_C14 e o = true.
+Proof. intros ->. apply list_beq_refl. Qed.
+
+Theorem sip_uri_roundtrip u : wf_sipuri u = true ->
+  exists a, parse_sip_uri (rp_sipuri u) = Ok a /\ sip_uri_print a = rp_sipuri u /\
+            parse_sip_uri (sip_uri_print a) = Ok a.
+Proof.
+  intros H. exists (embed_sipuri u).
+  rewrite sip_uri_print_embed, parse_sip_uri_rp by exact H. repeat split.
+Qed.
+
+Theorem C14_sipuri u : wf_sipuri u = true ->
+  codec_obs parse_sip_uri sip_uri_print obs_sip_uri (rp_sipuri u) =
+  expected_obs (rp_sipuri u) (x_sipuri u).
+Proof.
+  intros H. apply codec_obs_exact with (a := embed_sipuri u).
+  - apply parse_sip_uri_rp, H.
+  - apply sip_uri_print_embed, H.
+  - apply obs_sip_uri_embed, H.
+Qed.
+
+Corollary C14_sipuri_judge u : wf_sipuri u = true ->
+  judge_C14 (expected_obs (rp_sipuri u) (x_sipuri u))
+            (codec_obs parse_sip_uri sip_uri_print obs_sip_uri (rp_sipuri u)) = true.
+Proof. intros H. apply judge_C14_of_eq, C14_sipuri, H. Qed.
+
+(* ================================================================== addr-spec *)
+Lemma wf_other_parts s : wf_other s = true ->
+  forallb other_char s = true /\ In ":"%char s /\
+  has_prefix (s2b "sip:") s = false /\ has_prefix (s2b "sips:") s = false.
+Proof.
+  unfold wf_other. intros H.
+  apply andb_true_iff in H. destruct H as [H H4].
+  apply andb_true_iff in H. destruct H as [H H3].
+  apply andb_true_iff in H. destruct H as [H1 H2].
+  apply negb_true_iff in H3, H4. apply contains_byte_in in H2. repeat split; assumption.
+Qed.
+
+Lemma rp_sipuri_prefix u :
+  (has_prefix (s2b "sip:") (rp_sipuri u) || has_prefix (s2b "sips:") (rp_sipuri u))%bool = true.
+Proof. rewrite rp_sipuri_eq. destruct (au_secure u); reflexivity. Qed.
+
+Theorem parse_addr_spec_rp a : wf_addr a = true -> parse_addr_spec (rp_addr a) = Ok (embed_addr a).
+Proof.
+  destruct a as [u|s]; cbn [wf_addr rp_addr embed_addr]; intros H;
+    unfold parse_addr_spec, parse_addr_spec_with.
+  - rewrite rp_sipuri_prefix. fold parse_sip_uri. rewrite parse_sip_uri_rp by exact H. reflexivity.
+  - destruct (wf_other_parts s H) as (_ & _ & E1 & E2). rewrite E1, E2. reflexivity.
+Qed.
+
+Theorem addr_spec_print_embed a : wf_addr a = true -> addr_spec_print (embed_addr a) = rp_addr a.
+Proof.
+  destruct a as [u|s]; cbn [wf_addr rp_addr embed_addr addr_spec_print]; intros H;
+    [apply sip_uri_print_embed, H|reflexivity].
+Qed.
+
+(* the dialog half of an address: the SIP URI without parameters and headers *)
+Theorem dialog_addr_embed a : wf_addr a = true -> dialog_addr (embed_addr a) = x_dialog_addr a.
+Proof.
+  destruct a as [u|s]; cbn [wf_addr embed_addr dialog_addr x_dialog_addr]; intros H; [|reflexivity].
+  rewrite sip_uri_print_with_embed by exact H.
+  rewrite rp_sipuri_eq. unfold rp_core.
+  cbn [au_secure au_user au_host au_port au_params au_headers rp_params flat_map rp_hdrs].
+  rewrite <- !app_assoc. reflexivity.
+Qed.
+
+Theorem obs_addr_spec_embed a : wf_addr a = true -> obs_addr_spec (embed_addr a) = x_addr a.
+Proof.
+  intros H. unfold obs_addr_spec, x_addr. rewrite dialog_addr_embed by exact H.
+  destruct a as [u|s]; cbn [wf_addr embed_addr] in *; [|reflexivity].
+  rewrite obs_sip_uri_embed by exact H. reflexivity.
+Qed.
+
+Theorem addr_spec_roundtrip a : wf_addr a = true ->
+  exists x, parse_addr_spec (rp_addr a) = Ok x /\ addr_spec_print x = rp_addr a /\
+            parse_addr_spec (addr_spec_print x) = Ok x.
+Proof.
+  intros H. exists (embed_addr a).
+  rewrite addr_spec_print_embed, parse_addr_spec_rp by exact H. repeat split.
+Qed.
+
+Theorem C14_addrspec a : wf_addr a = true ->
+  codec_obs parse_addr_spec addr_spec_print obs_addr_spec (rp_addr a) =
+  expected_obs (rp_addr a) (x_addr a).
+Proof.
+  intros H. apply (codec_obs_exact _ _ _ _ (embed_addr a)).
+  - apply parse_addr_spec_rp, H.
+  - apply addr_spec_print_embed, H.
+  - apply obs_addr_spec_embed, H.
+Qed.
+
+Corollary C14_addrspec_judge a : wf_addr a = true ->
+  judge_C14 (expected_obs (rp_addr a) (x_addr a))
+            (codec_obs parse_addr_spec addr_spec_print obs_addr_spec (rp_addr a)) = true.
+Proof. intros H. apply judge_C14_of_eq, C14_addrspec, H. Qed.
+
+(* every character of a printed address is free of blanks, '<', '>' and ',' *)
+Lemma rp_addr_other a : wf_addr a = true -> forallb other_char (rp_addr a) = true.
+Proof.
+  destruct a as [u|s]; cbn [wf_addr rp_addr]; intros H.
+  - apply uri_other, rp_sipuri_uri, H.
+  - apply (wf_other_parts s H).
+Qed.
+Lemma rp_addr_no_lt a : wf_addr a = true -> ~ In "<"%char (rp_addr a).
+Proof. intros H. apply (other_notin "<"%char _ eq_refl), rp_addr_other, H. Qed.
+Lemma rp_addr_no_gt a : wf_addr a = true -> ~ In ">"%char (rp_addr a).
+Proof. intros H. apply (other_notin ">"%char _ eq_refl), rp_addr_other, H. Qed.
+Lemma rp_addr_no_comma a : wf_addr a = true -> ~ In ","%char (rp_addr a).
+Proof. intros H. apply (other_notin ","%char _ eq_refl), rp_addr_other, H. Qed.
+
+(* ================================================================== name-addr *)
+Lemma wf_nameaddr_parts n : wf_nameaddr n = true ->
+  display_ok (an_display n) = true /\ wf_addr (an_addr n) = true.
+Proof. unfold wf_nameaddr. intros H. apply andb_true_iff in H. exact H. Qed.
+
+Lemma display_no_lt s : display_ok s = true -> ~ In "<"%char s.
+Proof. apply display_notin. reflexivity. Qed.
+Lemma display_no_gt s : display_ok s = true -> ~ In ">"%char s.
+Proof. apply display_notin. reflexivity. Qed.
+Lemma display_no_comma s : display_ok s = true -> ~ In ","%char s.
+Proof. apply display_notin. reflexivity. Qed.
+
+(* position of the closing '>' *)
+Definition na_pos (n : a_nameaddr) : nat :=
+  List.length (an_display n ++ "<"%char :: rp_addr (an_addr n)).
+
+Lemma rp_nameaddr_app n rest :
+  rp_nameaddr n ++ rest = (an_display n ++ "<"%char :: rp_addr (an_addr n)) ++ ">"%char :: rest.
+Proof. unfold rp_nameaddr. norm_app. reflexivity. Qed.
+
+(* the cuts at '<' and '>' of a name-addr followed by anything (also used by Route, From, To) *)
+Lemma nameaddr_cut n rest : wf_nameaddr n = true ->
+  index_byte "<"%char (rp_nameaddr n ++ rest) = Some (List.length (an_display n)) /\
+  index_byte ">"%char (rp_nameaddr n ++ rest) = Some (na_pos n) /\
+  Nat.ltb (na_pos n) (List.length (an_display n)) = false /\
+  firstn (S (na_pos n)) (rp_nameaddr n ++ rest) = rp_nameaddr n /\
+  skipn (S (na_pos n)) (rp_nameaddr n ++ rest) = rest.
+Proof.
+  intros H. destruct (wf_nameaddr_parts n H) as [Hd Ha].
+  assert (N : ~ In ">"%char (an_display n ++ "<"%char :: rp_addr (an_addr n))).
+  { apply notin_app; [apply display_no_gt, Hd|].
+    apply notin_cons; [discriminate|apply rp_addr_no_gt, Ha]. }
+  split.
+  - unfold rp_nameaddr. rewrite <- app_assoc. cbn [app].
+    apply index_byte_app_notin, display_no_lt, Hd.
+  - rewrite rp_nameaddr_app. unfold na_pos.
+    split; [apply index_byte_app_notin, N|].
+    split; [apply Nat.ltb_ge; rewrite app_length; lia|].
+    split; [|apply skipn_S_len_app].
+    rewrite firstn_S_len_app. unfold rp_nameaddr. norm_app. reflexivity.
+Qed.
+
+Theorem parse_name_addr_rp n : wf_nameaddr n = true ->
+  parse_name_addr (rp_nameaddr n) = Ok (embed_nameaddr n).
+Proof.
+  intros H. destruct (wf_nameaddr_parts n H) as [Hd Ha].
+  destruct (nameaddr_cut n [] H) as (E1 & E2 & E3 & _ & _). rewrite app_nil_r in E1, E2.
+  unfold parse_name_addr. rewrite E1, E2, E3.
+  assert (S1 : slice (rp_nameaddr n) (S (List.length (an_display n))) (na_pos n) = rp_addr (an_addr n)).
+  { unfold slice, na_pos, rp_nameaddr. rewrite skipn_S_len_app, app_length. cbn [List.length].
+    replace (List.length (an_display n) + S (List.length (rp_addr (an_addr n))) - S (List.length (an_display n)))%nat
+      with (List.length (rp_addr (an_addr n))) by lia.
+    apply firstn_len_app. }
+  rewrite S1, parse_addr_spec_rp by exact Ha.
+  cbn [rbind]. unfold rp_nameaddr. rewrite firstn_len_app. reflexivity.
+Qed.
+
+Theorem name_addr_print_embed n : wf_nameaddr n = true ->
+  name_addr_print (embed_nameaddr n) = rp_nameaddr n.
+Proof.
+  intros H. destruct (wf_nameaddr_parts n H) as [_ Ha].
+  unfold name_addr_print, embed_nameaddr, rp_nameaddr. cbn [na_display na_addr].
+  rewrite addr_spec_print_embed by exact Ha. reflexivity.
+Qed.
+
+Theorem obs_name_addr_embed n : wf_nameaddr n = true -> obs_name_addr (embed_nameaddr n) = x_nameaddr n.
+Proof.
+  intros H. destruct (wf_nameaddr_parts n H) as [_ Ha].
+  unfold obs_name_addr, x_nameaddr, embed_nameaddr. cbn [na_display na_addr].
+  rewrite obs_addr_spec_embed by exact Ha. reflexivity.
+Qed.
+
+Theorem name_addr_roundtrip n : wf_nameaddr n = true ->
+  exists x, parse_name_addr (rp_nameaddr n) = Ok x /\ name_addr_print x = rp_nameaddr n /\
+            parse_name_addr (name_addr_print x) = Ok x.
+Proof.
+  intros H. exists (embed_nameaddr n).
+  rewrite name_addr_print_embed, parse_name_addr_rp by exact H. repeat split.
+Qed.
+
+Theorem C14_nameaddr n : wf_nameaddr n = true ->
+  codec_obs parse_name_addr name_addr_print obs_name_addr (rp_nameaddr n) =
+  expected_obs (rp_nameaddr n) (x_nameaddr n).
+Proof.
+  intros H. apply codec_obs_exact with (a := embed_nameaddr n).
+  - apply parse_name_addr_rp, H.
+  - apply name_addr_print_embed, H.
+  - apply obs_name_addr_embed, H.
+Qed.
+
+Corollary C14_nameaddr_judge n : wf_nameaddr n = true ->
+  judge_C14 (expected_obs (rp_nameaddr n) (x_nameaddr n))
+            (codec_obs parse_name_addr name_addr_print obs_name_addr (rp_nameaddr n)) = true.
+Proof. intros H. apply judge_C14_of_eq, C14_nameaddr, H. Qed.
+
+Lemma rp_nameaddr_no_comma n : wf_nameaddr n = true -> ~ In ","%char (rp_nameaddr n).
+Proof.
+  intros H. destruct (wf_nameaddr_parts n H) as [Hd Ha]. unfold rp_nameaddr.
+  apply notin_app; [apply display_no_comma, Hd|].
+  apply notin_cons; [discriminate|].
+  apply notin_app; [apply rp_addr_no_comma, Ha|].
+  apply notin_cons; [discriminate|intros []].
+Qed.
+
+(* ================================================================== witnesses: pre-fix code *)
+(* the pre-fix parameter decoder stops at the first valueless parameter other than "lr":
+   `sip:h;foo;lr;x=1` loses all three parameters and is re-encoded as `sip:h` *)
+Example sipuri_legacy_drops_params :
+  let t := s2b "sip:h;foo;lr;x=1" in
+  match parse_sip_uri_legacy t, parse_sip_uri t with
+  | Ok v, Ok w => u_params v = [] /\ sip_uri_print v = s2b "sip:h" /\ sip_uri_print v <> t /\
+                  List.length (u_params w) = 3%nat /\ sip_uri_print w = t
+  | _, _ => False
+  end.
+Proof. vm_compute. repeat split. discriminate. Qed.
+
+(* ... and when "lr" comes first, everything from the first other valueless parameter on *)
+Example sipuri_legacy_drops_tail :
+  match parse_sip_uri_legacy (s2b "sip:h;lr;foo;x=1") with
+  | Ok v => sip_uri_print v = s2b "sip:h;lr"
+  | _ => False
+  end.
+Proof. vm_compute. reflexivity. Qed.
+
+Definition ex_uri_legacy : a_sipuri :=
+  {| au_secure := false; au_user := None; au_host := s2b "h"; au_port := None;
+     au_params := [ {| ap_key := s2b "foo"; ap_val := None |};
+                    {| ap_key := s2b "lr"; ap_val := None |};
+                    {| ap_key := s2b "x"; ap_val := Some (s2b "1") |} ];
+     au_headers := [] |}.
+
+(* the same witness over the domain: a well-formed value on which the legacy decoder is not
+   exact and the legacy decode/encode pair is not byte-identical *)
+Theorem C14_sipuri_legacy_refuted :
+  exists u, wf_sipuri u = true /\ rp_sipuri u = s2b "sip:h;foo;lr;x=1" /\
+    parse_sip_uri_legacy (rp_sipuri u) <> Ok (embed_sipuri u) /\
+    codec_obs parse_sip_uri_legacy sip_uri_print obs_sip_uri (rp_sipuri u) <>
+    expected_obs (rp_sipuri u) (x_sipuri u).
+Proof.
+  exists ex_uri_legacy. split; [reflexivity|]. split; [reflexivity|].
+  split; vm_compute; discriminate.
+Qed.
+
+(* ================================================================== known findings outside wf *)
+(* K1: an IPv6 reference as host.  `sip:[::1]:5060` is cut at the FIRST ':' : host "[", the
+   port text ":1]:5060" is not a number (error ignored, port 0); the re-encoding is `sip:[`.
+   Hosts of the domain are [safe1] (no ':'), so the theorems above do not cover it. *)
+Theorem C14_ipv6_refuted :
+  exists text u, text = s2b "sip:[::1]:5060" /\ parse_sip_uri text = Ok u /\
+    u_host u = s2b "[" /\ u_port u = 0%Z /\
+    sip_uri_print u = s2b "sip:[" /\ sip_uri_print u <> text.
+Proof.
+  eexists. eexists. split; [reflexivity|]. split; [vm_compute; reflexivity|].
+  vm_compute. repeat split. discriminate.
+Qed.
+
+(* the corresponding abstract value is rejected by the domain predicate *)
+Example ipv6_not_wf :
+  wf_sipuri {| au_secure := false; au_user := None; au_host := s2b "[::1]"; au_port := Some 5060%Z;
+               au_params := []; au_headers := [] |} = false.
+Proof. reflexivity. Qed.
+
+(* K2: a ';' inside the user part.  `sip:a;b@h:5070` is cut at ';' BEFORE the '@' is looked
+   for: host "a", no user, no port, and one parameter named "b@h:5070".  The text is re-encoded
+   byte for byte, but every accessor is wrong (GetPort reports 5060 instead of 5070). *)
+Theorem C14_user_semicolon_refuted :
+  exists text u, text = s2b "sip:a;b@h:5070" /\ parse_sip_uri text = Ok u /\
+    u_host u = s2b "a" /\ u_user u = [] /\ u_port u = 0%Z /\ sip_uri_get_port u = 5060%Z /\
+    u_params u = [ {| k_key := s2b "b@h:5070"; k_val := [] |} ] /\
+    sip_uri_print u = text.
+Proof.
+  eexists. eexists. split; [reflexivity|]. split; [vm_compute; reflexivity|].
+  vm_compute. repeat split.
+Qed.
+
+Example user_semicolon_not_wf :
+  wf_sipuri {| au_secure := false; au_user := Some (s2b "a;b", None); au_host := s2b "h";
+               au_port := Some 5070%Z; au_params := []; au_headers := [] |} = false.
+Proof. reflexivity. Qed.
+
+(* ================================================================== examples (non-vacuity) *)
+(* sips, user:password, port, valued + valueless parameters incl. lr and transport=tls,
+   a value with '=' ':' '@' '/' and '%', two URI headers (one with an empty value) *)
+Definition ex_uri_a : a_sipuri :=
+  {| au_secure := true; au_user := Some (s2b "alice", Some (s2b "s3cr%20t"));
+     au_host := s2b "gw-1.example.org"; au_port := Some 5071%Z;
+     au_params := [ {| ap_key := s2b "transport"; ap_val := Some (s2b "tls") |};
+                    {| ap_key := s2b "lr"; ap_val := None |};
+                    {| ap_key := s2b "foo"; ap_val := None |};
+                    {| ap_key := s2b "x-y"; ap_val := Some (s2b "a=b:c@d/e%3b") |} ];
+     au_headers := [ (s2b "subject", s2b "hi%20there"); (s2b "priority", []);
+                     (s2b "x", s2b "k=v") ] |}.
+(* no user, no port: the default port follows the transport parameter *)
+Definition ex_uri_b : a_sipuri :=
+  {| au_secure := false; au_user := None; au_host := s2b "10.0.0.7"; au_port := None;
+     au_params := [ {| ap_key := s2b "lr"; ap_val := None |};
+                    {| ap_key := s2b "transport"; ap_val := Some (s2b "tls") |} ];
+     au_headers := [] |}.
+(* user without password, nothing else *)
+Definition ex_uri_c : a_sipuri :=
+  {| au_secure := false; au_user := Some (s2b "+15551234", None); au_host := s2b "h";
+     au_port := Some 65535%Z; au_params := []; au_headers := [] |}.
+
+Example ex_uri_wf : wf_sipuri ex_uri_a = true /\ wf_sipuri ex_uri_b = true /\ wf_sipuri ex_uri_c = true.
+Proof. repeat split. Qed.
+
+Example ex_uri_text :
+  rp_sipuri ex_uri_a =
+    s2b "sips:alice:s3cr%20t@gw-1.example.org:5071;transport=tls;lr;foo;x-y=a=b:c@d/e%3b?subject=hi%20there&priority=&x=k=v" /\
+  rp_sipuri ex_uri_b = s2b "sip:10.0.0.7;lr;transport=tls" /\
+  rp_sipuri ex_uri_c = s2b "sip:+15551234@h:65535".
+Proof. vm_compute. repeat split. Qed.
+
+Example ex_uri_decode : parse_sip_uri (rp_sipuri ex_uri_a) = Ok (embed_sipuri ex_uri_a).
+Proof. vm_compute. reflexivity. Qed.
+
+Example ex_uri_accessors :
+  sip_uri_get_port (embed_sipuri ex_uri_a) = 5071%Z /\
+  sip_uri_get_port (embed_sipuri ex_uri_b) = 5061%Z /\
+  sip_uri_get_port (embed_sipuri ex_uri_c) = 65535%Z /\
+  sip_uri_transport (embed_sipuri ex_uri_c) = s2b "udp" /\
+  kv_get (s2b "lr") (u_params (embed_sipuri ex_uri_a)) = Some [] /\
+  kv_get (s2b "x-y") (u_params (embed_sipuri ex_uri_a)) = Some (s2b "a=b:c@d/e%3b").
+Proof. vm_compute. repeat split. Qed.
+
+Example ex_uri_by_theorem :
+  codec_obs parse_sip_uri sip_uri_print obs_sip_uri (rp_sipuri ex_uri_a) =
+  expected_obs (rp_sipuri ex_uri_a) (x_sipuri ex_uri_a).
+Proof. apply C14_sipuri. reflexivity. Qed.
+
+Example ex_uri_by_compute :
+  forallb (fun u => list_beq (expected_obs (rp_sipuri u) (x_sipuri u))
+                             (codec_obs parse_sip_uri sip_uri_print obs_sip_uri (rp_sipuri u)))
+          [ex_uri_a; ex_uri_b; ex_uri_c] = true.
+Proof. vm_compute. reflexivity. Qed.
+
+(* addr-spec: SIP and non-SIP (tel:, urn:) *)
+Definition ex_addr_tel : a_addr := AAOther (s2b "tel:+1-555-0100;phone-context=example.com").
+Definition ex_addr_urn : a_addr := AAOther (s2b "urn:service:sos.fire?x=1&y").
+Example ex_addr_wf :
+  wf_addr (AASip ex_uri_a) = true /\ wf_addr ex_addr_tel = true /\ wf_addr ex_addr_urn = true.
+Proof. repeat split. Qed.
+Example ex_addr_by_theorem :
+  codec_obs parse_addr_spec addr_spec_print obs_addr_spec (rp_addr ex_addr_tel) =
+  expected_obs (rp_addr ex_addr_tel) (x_addr ex_addr_tel) /\
+  codec_obs parse_addr_spec addr_spec_print obs_addr_spec (rp_addr (AASip ex_uri_a)) =
+  expected_obs (rp_addr (AASip ex_uri_a)) (x_addr (AASip ex_uri_a)).
+Proof. split; apply C14_addrspec; reflexivity. Qed.
+Example ex_addr_dialog :
+  dialog_addr (embed_addr (AASip ex_uri_a)) = s2b "sips:alice:s3cr%20t@gw-1.example.org:5071" /\
+  dialog_addr (embed_addr ex_addr_urn) = s2b "urn:service:sos.fire?x=1&y".
+Proof. vm_compute. split; reflexivity. Qed.
+(* "sip:" / "sips:" texts are not other-URIs *)
+Example ex_addr_other_not_sip : wf_addr (AAOther (s2b "sip:h")) = false /\ wf_addr (AAOther (s2b "nocolon")) = false.
+Proof. split; reflexivity. Qed.
+
+(* name-addr: quoted display name with blanks, ';' and '@'; token display name; none *)
+Definition ex_na_a : a_nameaddr :=
+  {| an_display := s2b """Alice; the @dmin"" "; an_addr := AASip ex_uri_a |}.
+Definition ex_na_b : a_nameaddr := {| an_display := s2b "Bob "; an_addr := ex_addr_tel |}.
+Definition ex_na_c : a_nameaddr := {| an_display := []; an_addr := AASip ex_uri_b |}.
+Example ex_na_wf : wf_nameaddr ex_na_a = true /\ wf_nameaddr ex_na_b = true /\ wf_nameaddr ex_na_c = true.
+Proof. repeat split. Qed.
+Example ex_na_text :
+  rp_nameaddr ex_na_b = s2b "Bob <tel:+1-555-0100;phone-context=example.com>" /\
+  rp_nameaddr ex_na_c = s2b "<sip:10.0.0.7;lr;transport=tls>".
+Proof. vm_compute. split; reflexivity. Qed.
+Example ex_na_decode : parse_name_addr (rp_nameaddr ex_na_a) = Ok (embed_nameaddr ex_na_a).
+Proof. vm_compute. reflexivity. Qed.
+Example ex_na_by_theorem :
+  codec_obs parse_name_addr name_addr_print obs_name_addr (rp_nameaddr ex_na_a) =
+  expected_obs (rp_nameaddr ex_na_a) (x_nameaddr ex_na_a).
+Proof. apply C14_nameaddr. reflexivity. Qed.
+Example ex_na_by_compute :
+  forallb (fun n => list_beq (expected_obs (rp_nameaddr n) (x_nameaddr n))
+                             (codec_obs parse_name_addr name_addr_print obs_name_addr (rp_nameaddr n)))
+          [ex_na_a; ex_na_b; ex_na_c] = true.
+Proof. vm_compute. reflexivity. Qed.
+
+(* ================================================================== assumptions *)
+Print Assumptions parse_sip_uri_rp.
+Print Assumptions sip_uri_print_embed.
+Print Assumptions obs_sip_uri_embed.
+Print Assumptions sip_uri_roundtrip.
+Print Assumptions C14_sipuri.
+Print Assumptions C14_sipuri_judge.
+Print Assumptions parse_addr_spec_rp.
+Print Assumptions addr_spec_print_embed.
+Print Assumptions dialog_addr_embed.
+Print Assumptions obs_addr_spec_embed.
+Print Assumptions addr_spec_roundtrip.
+Print Assumptions C14_addrspec.
+Print Assumptions parse_name_addr_rp.
+Print Assumptions name_addr_print_embed.
+Print Assumptions obs_name_addr_embed.
+Print Assumptions name_addr_roundtrip.
+Print Assumptions C14_nameaddr.
+Print Assumptions C14_sipuri_legacy_refuted.
+Print Assumptions C14_ipv6_refuted.
+Print Assumptions C14_user_semicolon_refuted.
